@@ -226,7 +226,7 @@ def install(E):
 
     def imp_post(ctx, old, args, outcome):
         c0, c1 = committed(ctx, old.snap), committed(ctx)
-        once = commits(ctx) - commits(ctx, old.snap) <= 1
+        once = z3.And(commits(ctx) - commits(ctx, old.snap) <= 1, st["no_open_txn"](ctx))
         if outcome[0] == "raise":
             return z3.And(once, c1.equal(c0))
         res = outcome[1]
